@@ -15,6 +15,9 @@ func (p LLC) IsValid() error {
 	if len(p) < 3 {
 		return ErrFrameLen
 	}
+	if p.Type() != "u" && len(p) < 4 { // i and s frames have a 16 bits control field
+		return ErrFrameLen
+	}
 	return nil
 }
 
